@@ -211,13 +211,14 @@ type mutexState struct {
 }
 
 type sideTables struct {
-	mutex   map[*value]*mutexState
-	once    map[*value]bool
-	syncMap map[*value]*orderedMap
-	frames  map[*value]*framesState
-	logger  map[*value]*loggerState
+	mutex     map[*value]*mutexState
+	once      map[*value]bool
+	syncMap   map[*value]*orderedMap
+	frames    map[*value]*framesState
+	logger    map[*value]*loggerState
 	atomicVal map[*value]value
-	pcs     []stackEntry
+	prng      map[*value]*prngState
+	pcs       []stackEntry
 }
 
 type orderedMap struct {
@@ -238,12 +239,13 @@ type loggerState struct {
 func (i *interpreter) side() *sideTables {
 	if i.sideT == nil {
 		i.sideT = &sideTables{
-			mutex:   map[*value]*mutexState{},
-			once:    map[*value]bool{},
-			syncMap: map[*value]*orderedMap{},
-			frames:  map[*value]*framesState{},
-			logger:  map[*value]*loggerState{},
+			mutex:     map[*value]*mutexState{},
+			once:      map[*value]bool{},
+			syncMap:   map[*value]*orderedMap{},
+			frames:    map[*value]*framesState{},
+			logger:    map[*value]*loggerState{},
 			atomicVal: map[*value]value{},
+			prng:      map[*value]*prngState{},
 		}
 	}
 	return i.sideT
@@ -772,6 +774,53 @@ func registerStdStubs(sh *Shared) {
 		return []value{int32('a')}
 	})
 
+	// dataStr(buf) is the key of the shrinker's cache of rejected candidates. With symbolic
+	// words the key is structural: syntactically identical word tuples get the same key,
+	// anything else a different one. A spurious miss only makes accept() re-run a candidate
+	// it would have skipped, with the same result for a deterministic property.
+	reg(mainPath+".dataStr", func(fr *frame, args []value) value {
+		var sb strings.Builder
+		for _, w := range args[0].([]value) {
+			if s, ok := w.(sym); ok {
+				fmt.Fprintf(&sb, "<t%d>", s.t.id)
+			} else {
+				fmt.Fprintf(&sb, "<%x>", w.(uint64))
+			}
+		}
+		return sb.String()
+	})
+	// jsf64: with a concrete state the real code runs; with a symbolic seed the PRNG output is
+	// an arbitrary word sequence that is a function of the seed term (same seed term, same words).
+	reg("(*"+mainPath+".jsf64ctx).init", func(fr *frame, args []value) value {
+		if _, ok := args[1].(sym); !ok {
+			delete(fr.i.side().prng, args[0].(*value))
+			return callMethodReal(fr, "jsf64ctx", "init", args)
+		}
+		fr.i.side().prng[args[0].(*value)] = &prngState{seed: args[1].(sym).t}
+		return nil
+	})
+	reg("(*"+mainPath+".jsf64ctx).rand", func(fr *frame, args []value) value {
+		st := fr.i.side().prng[args[0].(*value)]
+		if st == nil {
+			return callMethodReal(fr, "jsf64ctx", "rand", args)
+		}
+		e := fr.i.ex
+		name := fmt.Sprintf("prng[%s].%d", seedKey(e, st.seed), st.n)
+		st.n++
+		if t, ok := e.pool.tab["var|"+name]; ok {
+			return sym{t, types.Uint64}
+		}
+		t := e.pool.Var(name, bvSort(64))
+		e.nondets = append(e.nondets, NondetRec{name, "U64", t})
+		return sym{t, types.Uint64}
+	})
+	reg("path/filepath.Glob", func(fr *frame, args []value) value {
+		if f := sh.main.Func("vfsGlob"); f != nil {
+			return callSSA(fr.i, fr.caller, fr.callpos, f, args, nil)
+		}
+		return tuple{[]value(nil), iface{}}
+	})
+
 	registerRuntimeStubs(sh)
 	registerTimeStubs(sh)
 	registerLogStubs(sh)
@@ -1072,10 +1121,19 @@ func callSSAReal(fr *frame, name string, args []value) value {
 	if fn == nil {
 		i.ex.unsupported("callSSAReal: %s not found", name)
 	}
-	i.noExt++
-	defer func() { i.noExt-- }()
+	i.bypassExt(fn.String())
+	defer i.unbypassExt(fn.String())
 	return callSSA(i, fr.caller, fr.callpos, fn, args, nil)
 }
+
+func (i *interpreter) bypassExt(name string) {
+	if i.bypass == nil {
+		i.bypass = map[string]int{}
+	}
+	i.bypass[name]++
+}
+
+func (i *interpreter) unbypassExt(name string) { i.bypass[name]-- }
 
 func (i *interpreter) lookupMethodByName(t types.Type, name string) *ssa.Function {
 	if _, ok := t.Underlying().(*types.Interface); ok {
@@ -1086,4 +1144,50 @@ func (i *interpreter) lookupMethodByName(t types.Type, name string) *ssa.Functio
 		return nil
 	}
 	return i.prog.MethodValue(sel)
+}
+
+type prngState struct {
+	seed *Term
+	n    int
+}
+
+// seedKey names a symbolic seed by its structure (variables by name), so that the same
+// seed expression gets the same PRNG words in every path and in the native replay vector.
+func seedKey(e *Exec, t *Term) string {
+	if t.size > 12 {
+		return fmt.Sprintf("t%d", t.id)
+	}
+	switch t.op {
+	case "var":
+		return t.name
+	case "const":
+		return fmt.Sprintf("%d", t.val)
+	}
+	var sb strings.Builder
+	sb.WriteString(strings.TrimPrefix(t.op, "bv"))
+	sb.WriteByte('(')
+	for k, a := range t.args {
+		if k > 0 {
+			sb.WriteByte(',')
+		}
+		sb.WriteString(seedKey(e, a))
+	}
+	sb.WriteByte(')')
+	return sb.String()
+}
+
+// callMethodReal runs the real body of a method of the package under test.
+func callMethodReal(fr *frame, typ, method string, args []value) value {
+	i := fr.i
+	t := i.shared.main.Type(typ)
+	if t == nil {
+		i.ex.unsupported("type %s not found", typ)
+	}
+	fn := i.prog.LookupMethod(types.NewPointer(t.Type()), i.shared.main.Pkg, method)
+	if fn == nil {
+		i.ex.unsupported("method %s.%s not found", typ, method)
+	}
+	i.bypassExt(fn.String())
+	defer i.unbypassExt(fn.String())
+	return callSSA(i, fr.caller, fr.callpos, fn, args, nil)
 }
